@@ -88,7 +88,7 @@ Qed.
 (** * replace / insert / remove against a decomposition *)
 Section upd.
 Context {A : Type}.
-Implicit Types (l pre post : list A).
+Implicit Types (l pre post a b c : list A).
 
 Lemma replace_nth_length k x l : length (replace_nth k x l) = length l.
 Proof. revert k; induction l as [|a r IH]; intros [|k]; cbn [replace_nth length]; auto. Qed.
